@@ -579,19 +579,23 @@ hnd_generic(coap_resource_t *resource, coap_session_t *session, const coap_pdu_t
       if (rc->large) {
         body_t *b = (body_t *)malloc(sizeof(body_t));
         int r;
-        b->id = next_body_id++;
+        long bid = next_body_id++;
+        b->id = bid;
         b->data = (uint8_t *)malloc(blen);
         memcpy(b->data, body, blen);
         ev_begin("largersp");
-        ev_int("id", b->id);
+        ev_int("id", bid);
         ev_int("len", (long)blen);
         ev_end();
+        /* a stable ETag for an unchanged representation (0 lets libcoap invent a new one
+         * per call, which makes every re-run of the handler look like a changed resource) */
         r = coap_add_data_large_response(resource, session, request, response, query,
-                                         COAP_MEDIATYPE_APPLICATION_OCTET_STREAM, rc->maxage, 0,
+                                         COAP_MEDIATYPE_APPLICATION_OCTET_STREAM, rc->maxage,
+                                         rc->body_kind == 3 ? (uint64_t)rc->gen_seed + 1 : 0,
                                          blen, b->data, released_body, b);
         if (!r) {
           ev_begin("largersp_fail");
-          ev_int("id", b->id);
+          ev_int("id", bid);
           ev_end();
         }
       } else {
@@ -1107,17 +1111,23 @@ cmd_send(void) {
     size_t blen = (size_t)strtoul(large, NULL, 10);
     uint32_t seed = (uint32_t)strtoul(strchr(large, ':') ? strchr(large, ':') + 1 : "1", NULL, 10);
     body_t *b = (body_t *)malloc(sizeof(body_t));
-    b->id = next_body_id++;
+    long bid = next_body_id++;
+    b->id = bid;
     b->data = gen_body(seed, blen);
     ev_begin("largereq");
-    ev_int("id", b->id);
+    ev_int("id", bid);
     ev_int("len", (long)blen);
     ev_end();
     if (!coap_add_data_large_request(s, pdu, blen, b->data, released_body, b)) {
+      /* the library has called the release function already: b is gone */
       ev_begin("largereq_fail");
-      ev_int("id", b->id);
+      ev_int("id", bid);
+      ev_int("sess", atol(tok[2]));
+      ev_hex("tok", coap_pdu_get_token(pdu).s, coap_pdu_get_token(pdu).length);
       ev_end();
-      ok = 0;
+      /* refused explicitly: the application gives up on this request */
+      coap_delete_pdu(pdu);
+      return;
     }
   } else {
     p = vf_unhex(kv("payload", "-"), strlen(kv("payload", "-")), &pl);
